@@ -91,27 +91,28 @@ type RegionMeta struct {
 }
 
 type Engine struct {
-	prog      *ssa.Program
-	pkg       *ssa.Package
-	cs        *Contracts
-	funcs     map[string]*ssa.Function // by contract-style name
-	fnName    map[*ssa.Function]string
-	decls     []string
-	declSet   map[string]bool
-	regions   map[string]*RegionMeta
-	bv        bool // current function analysed in bit-vector mode
-	queries   []*Query
-	curFn     string
-	curProps  []string
-	notes     []string // assumptions / abstractions used while analysing the current function
-	closures  map[string]*Closure
-	methods   map[string]*BoundMethod
-	cellSeq   int
-	pathCount int
-	errors    []string
-	trace     bool
-	assumed   map[string]bool
-	strConsts map[string]string
+	prog           *ssa.Program
+	pkg            *ssa.Package
+	cs             *Contracts
+	funcs          map[string]*ssa.Function // by contract-style name
+	readOwnedCache map[string]bool
+	fnName         map[*ssa.Function]string
+	decls          []string
+	declSet        map[string]bool
+	regions        map[string]*RegionMeta
+	bv             bool // current function analysed in bit-vector mode
+	queries        []*Query
+	curFn          string
+	curProps       []string
+	notes          []string // assumptions / abstractions used while analysing the current function
+	closures       map[string]*Closure
+	methods        map[string]*BoundMethod
+	cellSeq        int
+	pathCount      int
+	errors         []string
+	trace          bool
+	assumed        map[string]bool
+	strConsts      map[string]string
 
 	nested           map[string]*NestedInfo
 	loaded           map[string]*Addr
@@ -131,9 +132,9 @@ type Engine struct {
 	safeNilOn        bool
 	exploreAllPanics bool
 	handled          bool
-	capturedNames    map[string]bool // fn|local: locals captured by some closure of fn
+	capturedNames    map[string]bool     // fn|local: locals captured by some closure of fn
 	makeFuncs        map[string]*Closure // reflect.MakeFunc values -> their Go closure
-	spawningFns      map[string]bool // functions that start goroutines or register AfterFunc hooks
+	spawningFns      map[string]bool     // functions that start goroutines or register AfterFunc hooks
 	sitesHit         map[string]bool
 	entered          map[string]bool
 }
@@ -384,7 +385,7 @@ type Frame struct {
 	Dst       ssa.Value
 	OnRet     string // special continuation tag
 	Args      []Val
-	Cells     map[string]*Cell // name -> cell (source-named locals; the latest declaration wins)
+	Cells     map[string]*Cell   // name -> cell (source-named locals; the latest declaration wins)
 	CellsAll  map[string][]*Cell // name -> all cells of that name in allocation order (name__k in specs)
 	LoopSeen  map[int]bool
 	Results   []Val
